@@ -396,6 +396,9 @@ def macro_section(r, n, avoid):
             out.append(t)
         return out
 
+    lines = []
+    idents = ["x", "y", "z", "foo", "bar"]
+
     def tok_pool(params, self_name=None, in_func=False):
         pool = list(idents) + ["1", "2", "42", "0x10", "+", "-", "*", "(", ")", ",", ";", "[", "]"]
         pool += params * 3
